@@ -115,3 +115,857 @@ Definition with_tabstops (s : st) (v : list Z) : st := mkSt (width s) (height s)
 Definition with_modes (s : st) (v : modes_t) : st := mkSt (width s) (height s) (term s) (cur s) (cursor s) (has_focus s) (sb s) (sup s) (u8eat s) (u8buf s) (escbuf s) (inesc s) (pstate s) (attrspec s) (cset s) (saved_cur s) (saved_attrs s) (rotten s) (sr_start s) (sr_end s) (tabstops s) v (events s) (enc s).
 Definition with_events (s : st) (v : list event) : st := mkSt (width s) (height s) (term s) (cur s) (cursor s) (has_focus s) (sb s) (sup s) (u8eat s) (u8buf s) (escbuf s) (inesc s) (pstate s) (attrspec s) (cset s) (saved_cur s) (saved_attrs s) (rotten s) (sr_start s) (sr_end s) (tabstops s) (modes s) v (enc s).
 Definition with_enc (s : st) (v : Z) : st := mkSt (width s) (height s) (term s) (cur s) (cursor s) (has_focus s) (sb s) (sup s) (u8eat s) (u8buf s) (escbuf s) (inesc s) (pstate s) (attrspec s) (cset s) (saved_cur s) (saved_attrs s) (rotten s) (sr_start s) (sr_end s) (tabstops s) (modes s) (events s) v.
+
+(* ---------- small helpers ---------- *)
+Definition repeatz {A} (x : A) (n : Z) : list A := repeat x (Z.to_nat n).   (* [x] * n *)
+Definition is1 (ch : list Z) (b : Z) : bool := match ch with [c] => c =? b | _ => false end.   (* char == bytes([b]) *)
+Fixpoint memz (b : Z) (l : list Z) : bool := match l with [] => false | x :: r => (x =? b) || memz b r end.
+(* char in b"..." / char in {b"x", ...} for the one-byte alphabets used by vterm.py (a multi-byte char only
+   has bytes >= 0x80 and is never a substring of those ASCII alphabets) *)
+Definition in1 (ch : list Z) (l : list Z) : bool := match ch with [c] => memz c l | _ => false end.
+Fixpoint list_eqb (a b : list Z) : bool :=
+  match a, b with
+  | [], [] => true
+  | x :: a', y :: b' => (x =? y) && list_eqb a' b'
+  | _, _ => false
+  end.
+Definition last_opt (l : list Z) : list Z := match rev l with [] => [] | x :: _ => [x] end.     (* l[-1:] *)
+Fixpoint lstrip0 (l : list Z) : list Z := match l with 48 :: r => lstrip0 r | _ => l end.        (* l.lstrip(b"0") *)
+Fixpoint iter_res {A} (n : nat) (f : A -> result A) (a : A) : result A :=
+  match n with O => Ok a | S k => do a' <- f a; iter_res k f a' end.
+
+(* ---------- cursor ---------- *)
+(* TermCanvas.constrain_coords (translated: constrain_coords_gen) *)
+Definition constrain (s : st) (x y ign : Z) : Z * Z :=
+  constrain_coords_gen (width s) (height s) (m_constrain (modes s)) (sr_start s) (sr_end s) x y ign.
+
+(* TermCanvas.set_term_cursor(x, y) *)
+Definition set_term_cursor (s : st) (x y : Z) : st :=
+  let '(x, y) := constrain s x y 0 in
+  let s := with_cur s (x, y) in
+  if has_focus s && m_visible (modes s) && (sup s <? height s - y)
+  then with_cursor s (Some (x, y + sup s))
+  else with_cursor s None.
+(* set_term_cursor() : both axes omitted *)
+Definition set_term_cursor_here (s : st) : st := set_term_cursor s (fst (cur s)) (snd (cur s)).
+
+(* TermCanvas.reset_scroll *)
+Definition reset_scroll (s : st) : st := with_sr_end (with_sr_start s 0) (height s - 1).
+
+(* TermCanvas.scroll_buffer(up, reset, lines) *)
+Definition scroll_buffer (s : st) (up reset : bool) (lines : oz) : st :=
+  if reset then set_term_cursor_here (with_sup s 0) else
+  let lines := match lines with None => height s / 2 | Some l => l end in
+  let lines := if up then lines else - lines in
+  let maxscroll := zlen (sb s) in
+  let su := sup s + lines in
+  let su := if maxscroll <? su then maxscroll else if su <? 0 then 0 else su in
+  set_term_cursor_here (with_sup s su).
+
+(* ---------- lines, tab stops ---------- *)
+(* TermCanvas.empty_char / empty_line *)
+Definition empty_char (s : st) (ch : list Z) : cell := (attrspec s, cs_current (cset s), ch).
+Definition empty_line (s : st) (ch : list Z) : row := repeatz (empty_char s ch) (width s).
+
+(* TermCanvas.init_tabstops(extend) *)
+Definition init_tabstops (s : st) (extend : bool) : st :=
+  let q := width s / 8 in
+  let tablen := if 0 <? width s mod 8 then q + 1 else q in
+  if extend then with_tabstops s (tabstops s ++ repeatz 1 (tablen - zlen (tabstops s)))
+  else with_tabstops s (repeatz 1 tablen).
+
+(* TermCanvas.set_tabstop(x, remove, clear) ; x is always term_cursor[0] *)
+Definition set_tabstop (s : st) (x : Z) (remove clear : bool) : result st :=
+  if clear then Ok (with_tabstops s (map (fun _ => 0) (tabstops s))) else
+  let dv := x / 8 in
+  let md := x mod 8 in
+  do t <- get_index (tabstops s) dv;
+  do l <- set_index (tabstops s) dv (if remove then Z.land t (Z.lnot (Z.shiftl 1 md)) else Z.lor t (Z.shiftl 1 md));
+  Ok (with_tabstops s l).
+
+(* TermCanvas.is_tabstop(x) *)
+Definition is_tabstop (s : st) (x : Z) : result bool :=
+  do t <- get_index (tabstops s) (x / 8);
+  Ok (0 <? Z.land t (Z.shiftl 1 (x mod 8))).
+
+(* TermCanvas.clear(cursor) *)
+Definition clear (s : st) (c : option (Z * Z)) : st :=
+  let s := with_term s (repeatz (empty_line s [32]) (height s)) in
+  match c with None => set_term_cursor s 0 0 | Some (x, y) => set_term_cursor s x y end.
+
+(* TermModes.reset : bracketed_paste is not reset *)
+Definition modes_reset (m : modes_t) : modes_t :=
+  mkModes false false false false false false true true (m_bracketed m) charset_default_gen.
+
+(* TermCharset() *)
+Definition charset_new : charset_t := mkCharset 0 1 false 0 (charset_mapping_gen 0).
+Definition cs_g (c : charset_t) (g : Z) : Z := if g =? 0 then cs_g0 c else cs_g1 c.
+(* TermCharset.activate(g) *)
+Definition cs_activate (c : charset_t) (g : Z) : charset_t :=
+  set_cs_current (set_cs_active c g) (charset_mapping_gen (cs_g c g)).
+(* TermCharset.define(g, charset) *)
+Definition cs_define (c : charset_t) (g name : Z) : charset_t :=
+  let c := if g =? 0 then set_cs_g0 c name else set_cs_g1 c name in
+  cs_activate c (cs_active c).
+
+(* TermCanvas.reset *)
+Definition reset (s : st) : st :=
+  let s := with_escbuf s [] in
+  let s := with_inesc s false in
+  let s := with_pstate s 0 in
+  let s := with_attrspec s None in
+  let s := with_cset s charset_new in
+  let s := with_saved_cur s None in
+  let s := with_saved_attrs s None in
+  let s := with_rotten s false in
+  let s := reset_scroll s in
+  let s := init_tabstops s false in
+  let s := with_modes s (modes_reset (modes s)) in
+  clear s None.
+
+(* TermCanvas.__init__(width, height, widget) with a fresh TermModes ; e = util.get_encoding() *)
+Definition init (w h e : Z) : st :=
+  reset (mkSt w h [] (0, 0) (Some (0, 0)) false [] 0 None [] [] false 0 None charset_new None None false
+              0 (h - 1) [] (mkModes false false false false false false true true false charset_default_gen) [] e).
+
+(* deque(maxlen=...).append *)
+Definition sb_append (s : st) (r : row) : st :=
+  let l := sb s ++ [r] in
+  with_sb s (if scrollback_maxlen_gen <? zlen l then dropz 1 l else l).
+
+(* TermCanvas.scroll(reverse) *)
+Definition scroll (s : st) (reverse : bool) : result st :=
+  if reverse then
+    do p <- pop (term s) (sr_end s);
+    Ok (with_term s (insert (snd p) (sr_start s) (empty_line s [32])))
+  else
+    do p <- pop (term s) (sr_start s);
+    let s := sb_append s (fst p) in
+    Ok (with_term s (insert (snd p) (sr_end s) (empty_line s [32]))).
+
+(* TermCanvas.linefeed(reverse) *)
+Definition linefeed (s : st) (reverse : bool) : result st :=
+  let '(x, y) := cur s in
+  if reverse then
+    if (y <=? 0) && (0 <? sr_start s) then Ok (set_term_cursor s x y)
+    else if y =? sr_start s then do s <- scroll s true; Ok (set_term_cursor s x y)
+    else Ok (set_term_cursor s x (y - 1))
+  else
+    if (height s - 1 <=? y) && (sr_end s <? height s - 1) then Ok (set_term_cursor s x y)
+    else if y =? sr_end s then do s <- scroll s false; Ok (set_term_cursor s x y)
+    else Ok (set_term_cursor s x (y + 1)).
+
+(* TermCanvas.carriage_return / newline *)
+Definition carriage_return (s : st) : st := set_term_cursor s 0 (snd (cur s)).
+Definition newline (s : st) : result st := linefeed (carriage_return s) false.
+
+(* TermCanvas.move_cursor(x, y, relative_x, relative_y, relative) *)
+Definition move_cursor (s : st) (x y : Z) (relx rely rel : bool) : st :=
+  let rely := rely || rel in
+  let relx := relx || rel in
+  let x := if relx then x + fst (cur s) else x in
+  let y := if rely then y + snd (cur s) else if m_constrain (modes s) then y + sr_start s else y in
+  set_term_cursor s x y.
+
+(* ---------- cells ---------- *)
+(* TermCanvas.set_char(char, x, y) *)
+Definition set_char (s : st) (ch : list Z) (x y : Z) : result st :=
+  let '(x, y) := constrain s x y 0 in
+  do r <- get_index (term s) y;
+  do r' <- set_index r x (attrspec s, cs_current (cset s), ch);
+  do t <- set_index (term s) y r';
+  Ok (with_term s t).
+
+(* TermCanvas.insert_chars(position, chars, char) *)
+Definition insert_chars (s : st) (position : Z * Z) (chars : Z) (ch : option (list Z)) : result st :=
+  let chars := if chars =? 0 then 1 else chars in
+  let spec := match ch with None => empty_char s [32] | Some c => (attrspec s, cs_current (cset s), c) end in
+  let '(x, y) := position in
+  let chars := Z.min chars (width s) in
+  do t <- iter_res (Z.to_nat chars)
+            (fun t => do r <- get_index t y;
+                      do p <- pop (insert r x spec) (-1);
+                      set_index t y (snd p)) (term s);
+  Ok (with_term s t).
+
+(* TermCanvas.remove_chars(position, chars) *)
+Definition remove_chars (s : st) (position : Z * Z) (chars : Z) : result st :=
+  let chars := if chars =? 0 then 1 else chars in
+  let '(x, y) := position in
+  let chars := Z.min chars (width s) in
+  do t <- iter_res (Z.to_nat chars)
+            (fun t => do r <- get_index t y;
+                      do p <- pop r x;
+                      set_index t y (snd p ++ [empty_char s [32]])) (term s);
+  Ok (with_term s t).
+
+(* TermCanvas.insert_lines(row=None, lines) *)
+Definition insert_lines (s : st) (lines : Z) : result st :=
+  let rw := snd (cur s) in
+  let lines := if lines =? 0 then 1 else lines in
+  let lines := Z.min lines (height s) in
+  do t <- iter_res (Z.to_nat lines)
+            (fun t => do p <- pop (insert t rw (empty_line s [32])) (sr_end s); Ok (snd p)) (term s);
+  Ok (with_term s t).
+
+(* TermCanvas.remove_lines(row=None, lines) *)
+Definition remove_lines (s : st) (lines : Z) : result st :=
+  let rw := snd (cur s) in
+  let lines := if lines =? 0 then 1 else lines in
+  let lines := Z.min lines (height s) in
+  do t <- iter_res (Z.to_nat lines)
+            (fun t => do p <- pop t rw; Ok (insert (snd p) (sr_end s) (empty_line s [32]))) (term s);
+  Ok (with_term s t).
+
+(* for x in range(a, b): r[x] = v *)
+Fixpoint set_range_n (n : nat) (r : row) (x : Z) (v : cell) : result row :=
+  match n with O => Ok r | S k => do r' <- set_index r x v; set_range_n k r' (x + 1) v end.
+Definition set_range (r : row) (a b : Z) (v : cell) : result row := set_range_n (Z.to_nat (b - a)) r a v.
+(* for x in range(a, b): self.term[y][x] = self.empty_char() *)
+Definition set_cells (s : st) (y a b : Z) : result st :=
+  if b <=? a then Ok s else
+  do r <- get_index (term s) y;
+  do r' <- set_range r a b (empty_char s [32]);
+  do t <- set_index (term s) y r';
+  Ok (with_term s t).
+
+(* TermCanvas.blank_line(row) *)
+Definition blank_line (s : st) (y : Z) : result st :=
+  do t <- set_index (term s) y (empty_line s [32]); Ok (with_term s t).
+
+(* TermCanvas.decaln *)
+Fixpoint decaln_n (n : nat) (s : st) (y : Z) : result st :=
+  match n with
+  | O => Ok s
+  | S k => do t <- set_index (term s) y (empty_line s [69]); decaln_n k (with_term s t) (y + 1)
+  end.
+Definition decaln (s : st) : result st := decaln_n (Z.to_nat (height s)) s 0.
+
+(* TermCanvas.erase(start, end) *)
+Fixpoint erase_rows (n : nat) (s : st) (y sx sy ex ey : Z) : result st :=
+  match n with
+  | O => Ok s
+  | S k =>
+      do s' <- (if y =? sy then set_cells s y sx (width s)
+                else if y =? ey then set_cells s y 0 (ex + 1)
+                else blank_line s y);
+      erase_rows k s' (y + 1) sx sy ex ey
+  end.
+Definition erase (s : st) (st_ en : Z * Z) : result st :=
+  let '(sx, sy) := constrain s (fst st_) (snd st_) 0 in
+  let '(ex, ey) := constrain s (fst en) (snd en) 0 in
+  if sy =? ey then set_cells s sy sx (ex + 1)
+  else erase_rows (Z.to_nat (ey - sy + 1)) s sy sx sy ex ey.
+
+(* ---------- SGR ---------- *)
+(* running values of sgi_to_attrspec's loop: fg, bg, colors, the 'attributes' set, and the two
+   side effects on self.charset / self.modes.display_ctrl *)
+Record sgi_t := mkSgi { g_fg : oz; g_bg : oz; g_colors : Z; g_bold : bool; g_ul : bool; g_blink : bool; g_so : bool;
+                        g_cs : charset_t; g_dc : bool }.
+Definition sgi_step1 (a : Z) (g : sgi_t) : sgi_t :=
+  let '(mkSgi fg bg colors bold ul blink so cs dc) := g in
+  if (30 <=? a) && (a <=? 37) then mkSgi (Some (a - 30)) bg (Z.max 16 colors) bold ul blink so cs dc
+  else if (40 <=? a) && (a <=? 47) then mkSgi fg (Some (a - 40)) (Z.max 16 colors) bold ul blink so cs dc
+  else if (90 <=? a) && (a <=? 97) then mkSgi (Some (a - 90 + 8)) bg (Z.max 16 colors) bold ul blink so cs dc
+  else if (100 <=? a) && (a <=? 107) then mkSgi fg (Some (a - 100 + 8)) (Z.max 16 colors) bold ul blink so cs dc
+  else if a =? 39 then mkSgi None bg colors bold ul blink so cs dc
+  else if a =? 49 then mkSgi fg None colors bold ul blink so cs dc
+  else if a =? 10 then (* charset.reset_sgr_ibmpc(); display_ctrl = False *)
+    mkSgi fg bg colors bold ul blink so (cs_activate (set_cs_sgr cs false) (cs_active cs)) false
+  else if (a =? 11) || (a =? 12) then mkSgi fg bg colors bold ul blink so (set_cs_sgr cs true) true
+  else if a =? 1 then mkSgi fg bg colors true ul blink so cs dc
+  else if a =? 4 then mkSgi fg bg colors bold true blink so cs dc
+  else if a =? 5 then mkSgi fg bg colors bold ul true so cs dc
+  else if a =? 7 then mkSgi fg bg colors bold ul blink true cs dc
+  else if a =? 24 then mkSgi fg bg colors bold false blink so cs dc
+  else if a =? 25 then mkSgi fg bg colors bold ul false so cs dc
+  else if a =? 27 then mkSgi fg bg colors bold ul blink false cs dc
+  else if a =? 0 then mkSgi None None colors false false false false cs dc
+  else g.
+Definition sgi_setcolor (a c newcolors : Z) (g : sgi_t) : sgi_t :=
+  let '(mkSgi fg bg _ bold ul blink so cs dc) := g in
+  if a =? 38 then mkSgi (Some c) bg newcolors bold ul blink so cs dc
+  else mkSgi fg (Some c) newcolors bold ul blink so cs dc.
+(* the while loop of sgi_to_attrspec *)
+Fixpoint sgi_loop (l : list Z) (g : sgi_t) : sgi_t :=
+  match l with
+  | [] => g
+  | a :: r =>
+      if (a =? 38) || (a =? 48) then
+        match r with
+        | 5 :: c :: r' => sgi_loop r' (sgi_setcolor a (Z.min c 255) (Z.max 256 (g_colors g)) g)
+        | 2 :: cr :: cg :: cb :: r' =>
+            sgi_loop r' (sgi_setcolor a (Z.shiftl (Z.min cr 255) 16 + Z.shiftl (Z.min cg 255) 8 + Z.min cb 255) 16777216 g)
+        | _ => sgi_loop r g
+        end
+      else sgi_loop r (sgi_step1 a g)
+  end.
+
+(* _defaulter + AttrSpec(fg, bg, colors): the colour numbers are read back unchanged exactly when they
+   fit the colour depth; outside that domain this model does not follow the code (OtherError) *)
+Definition color_ok (c : oz) (colors : Z) : bool :=
+  match c with
+  | None => true
+  | Some c => (0 <=? c) &&
+      (if colors =? 16777216 then c <? 16777216 else if colors =? 256 then c <? 256
+       else if colors =? 16 then c <? 16 else false)
+  end.
+Definition colors_ok (colors : Z) : bool :=
+  (colors =? 1) || (colors =? 16) || (colors =? 256) || (colors =? 16777216).
+Definition is_none (o : oz) : bool := match o with None => true | Some _ => false end.
+Definition mk_attrspec (fg bg : oz) (colors : Z) (bold ul blink so : bool) : result (option attr) :=
+  if colors_ok colors && color_ok fg colors && color_ok bg colors then
+    if is_none fg && is_none bg && negb (bold || ul || blink || so) then Ok None
+    else Ok (Some (mkAttr fg bg (if is_none fg && is_none bg then 1 else colors) bold ul blink so))
+  else Err OtherError.
+
+(* TermCanvas.sgi_to_attrspec(attrs, fg, bg, attributes, prev_colors), with its side effects *)
+Definition sgi_to_attrspec (s : st) (attrs : list Z) (fg bg : oz) (bold ul blink so : bool) (prev_colors : Z)
+  : result (st * option attr) :=
+  let g := sgi_loop attrs (mkSgi fg bg prev_colors bold ul blink so (cset s) (m_display_ctrl (modes s))) in
+  let s := with_modes (with_cset s (g_cs g)) (set_m_display_ctrl (modes s) (g_dc g)) in
+  let fg := match g_fg g with
+            | Some f => if g_bold g && (g_colors g =? 16) && (f <? 8) then Some (f + 8) else Some f
+            | None => None
+            end in
+  do a <- mk_attrspec fg (g_bg g) (g_colors g) (g_bold g) (g_ul g) (g_blink g) (g_so g);
+  Ok (s, a).
+
+(* TermCanvas.reverse_attrspec(attrspec, undo) *)
+Definition reverse_attrspec (a : option attr) (undo : bool) : attr :=
+  let a := match a with None => mkAttr None None 1 false false false false | Some a => a end in
+  if a_so a && undo then mkAttr (a_fg a) (a_bg a) (a_colors a) (a_bold a) (a_ul a) (a_blink a) false
+  else if negb (a_so a) && negb undo then mkAttr (a_fg a) (a_bg a) (a_colors a) (a_bold a) (a_ul a) (a_blink a) true
+  else a.
+
+(* TermCanvas.csi_set_attr(attrs) *)
+Definition unbright (a : attr) (c : oz) : oz :=
+  match c with Some n => Some (if (8 <=? n) && (a_colors a =? 16) then n - 8 else n) | None => None end.
+Definition csi_set_attr (s : st) (attrs : list Z) : result st :=
+  do lst <- get_index attrs (-1);
+  let s := if lst =? 0 then with_attrspec s None else s in
+  do r <- match attrspec s with
+          | None => sgi_to_attrspec s attrs None None false false false false 1
+          | Some a => sgi_to_attrspec s attrs (unbright a (a_fg a)) (unbright a (a_bg a))
+                        (a_bold a) (a_ul a) (a_blink a) (a_so a) (a_colors a)
+          end;
+  let '(s, a) := r in
+  if m_reverse_video (modes s) then Ok (with_attrspec s (Some (reverse_attrspec a false)))
+  else Ok (with_attrspec s a).
+
+(* TermCanvas.reverse_video(undo): every cell of the height x width grid (outside exact dimensions the
+   model does not follow the code) *)
+Definition dims_ok (s : st) : bool :=
+  (zlen (term s) =? height s) && forallb (fun r => zlen r =? width s) (term s).
+Definition reverse_video (s : st) (undo : bool) : result st :=
+  if dims_ok s then
+    Ok (with_term s (map (map (fun c : cell => let '(a, cs, ch) := c in (Some (reverse_attrspec a undo), cs, ch))) (term s)))
+  else Err OtherError.
+
+(* ---------- modes, scrolling region, reports ---------- *)
+(* TermCanvas.set_mode(mode, flag, qmark, reset) *)
+Definition set_mode (s : st) (mode : Z) (flag qmark : bool) : result st :=
+  let m := modes s in
+  if qmark then
+    if mode =? 1 then Ok (with_modes s (set_m_keys_decckm m flag))
+    else if mode =? 3 then Ok (clear s None)
+    else if mode =? 5 then
+      do s <- (if Bool.eqb (m_reverse_video m) flag then Ok s else reverse_video s (negb flag));
+      Ok (with_modes s (set_m_reverse_video (modes s) flag))
+    else if mode =? 6 then Ok (set_term_cursor (with_modes s (set_m_constrain m flag)) 0 0)
+    else if mode =? 7 then Ok (with_modes s (set_m_autowrap m flag))
+    else if mode =? 25 then Ok (set_term_cursor_here (with_modes s (set_m_visible m flag)))
+    else if mode =? 2004 then Ok (with_modes s (set_m_bracketed m flag))
+    else Ok s
+  else
+    if mode =? 3 then Ok (with_modes s (set_m_display_ctrl m flag))
+    else if mode =? 4 then Ok (with_modes s (set_m_insert m flag))
+    else if mode =? 20 then Ok (with_modes s (set_m_lfnl m flag))
+    else Ok s.
+
+(* TermCanvas.csi_set_modes(modes, qmark, reset) *)
+Fixpoint csi_set_modes (s : st) (ms : list Z) (qmark reset_ : bool) : result st :=
+  match ms with
+  | [] => Ok s
+  | m :: r => do s' <- set_mode s m (negb reset_) qmark; csi_set_modes s' r qmark reset_
+  end.
+
+(* TermCanvas.csi_set_scroll(top, bottom) *)
+Definition csi_set_scroll (s : st) (top bottom : Z) : st :=
+  let top := if top =? 0 then 1 else top in
+  let bottom := if bottom =? 0 then height s else bottom in
+  if (top <? bottom) && (bottom <=? height s) then
+    let s := with_sr_start s (snd (constrain s 0 (top - 1) 1)) in
+    let s := with_sr_end s (snd (constrain s 0 (bottom - 1) 1)) in
+    set_term_cursor s 0 0
+  else s.
+
+(* TermCanvas.csi_clear_tabstop(mode) *)
+Definition csi_clear_tabstop (s : st) (mode : Z) : result st :=
+  if mode =? 0 then set_tabstop s (fst (cur s)) true false
+  else if mode =? 3 then set_tabstop s (fst (cur s)) false true
+  else Ok s.
+
+(* f"{n:d}" *)
+Fixpoint dec_digits (fuel : nat) (n : Z) : list Z :=
+  match fuel with
+  | O => [48 + n mod 10]
+  | S k => if n <? 10 then [48 + n] else dec_digits k (n / 10) ++ [48 + n mod 10]
+  end.
+Definition dec_str (n : Z) : list Z :=
+  if n <? 0 then 45 :: dec_digits (Z.to_nat (Z.log2 (- n))) (- n) else dec_digits (Z.to_nat (Z.log2 n)) n.
+Definition respond (s : st) (r : list Z) : st := with_events s (Respond r :: events s).
+Definition reply_da : list Z := [27; 91; 63; 54; 99].                (* ESC [ ? 6 c *)
+Definition reply_ok : list Z := [27; 91; 48; 110].                   (* ESC [ 0 n *)
+Definition reply_cpr (y x : Z) : list Z := [27; 91] ++ dec_str y ++ [59] ++ dec_str x ++ [82].
+
+(* TermCanvas.csi_get_device_attributes(qmark) *)
+Definition csi_get_device_attributes (s : st) (qmark : bool) : st := if qmark then s else respond s reply_da.
+(* TermCanvas.csi_status_report(mode) *)
+Definition csi_status_report (s : st) (mode : Z) : st :=
+  if mode =? 5 then respond s reply_ok
+  else if mode =? 6 then respond s (reply_cpr (snd (cur s) + 1) (fst (cur s) + 1))
+  else s.
+
+(* TermCanvas.csi_erase_line(mode) *)
+Definition csi_erase_line (s : st) (mode : Z) : result st :=
+  let '(x, y) := cur s in
+  if mode =? 0 then erase s (cur s) (width s - 1, y)
+  else if mode =? 1 then erase s (0, y) (x, y)
+  else if mode =? 2 then blank_line s y
+  else Ok s.
+
+(* TermCanvas.csi_erase_display(mode) *)
+Definition csi_erase_display (s : st) (mode : Z) : result st :=
+  do s <- (if mode =? 0 then erase s (cur s) (width s - 1, height s - 1) else Ok s);
+  if mode =? 1 then erase s (0, 0) (fst (cur s) - 1, snd (cur s))
+  else if mode =? 2 then Ok (clear s (Some (cur s)))
+  else Ok s.
+
+(* TermCanvas.csi_set_keyboard_leds(mode) *)
+Definition csi_set_keyboard_leds (s : st) (mode : Z) : st :=
+  if (0 <=? mode) && (mode <=? 3) then with_events s (Leds mode :: events s) else s.
+
+(* TermCanvas.save_cursor / restore_cursor (copy.copy(self.charset) shares the _g list with the live
+   charset: only _sgr_mapping, active and current are really saved) *)
+Definition save_cursor (s : st) (with_attrs : bool) : st :=
+  let s := with_saved_cur s (Some (cur s)) in
+  if with_attrs then
+    with_saved_attrs s (Some (attrspec s, (cs_sgr (cset s), cs_active (cset s), cs_current (cset s))))
+  else s.
+Definition restore_cursor (s : st) (with_attrs : bool) : st :=
+  match saved_cur s with
+  | None => s
+  | Some (x, y) =>
+      let s := set_term_cursor s x y in
+      if with_attrs then
+        match saved_attrs s with
+        | Some (a, (sg, ac, cu)) =>
+            with_cset (with_attrspec s a) (mkCharset (cs_g0 (cset s)) (cs_g1 (cset s)) sg ac cu)
+        | None => s
+        end
+      else s
+  end.
+
+(* ---------- printing ---------- *)
+(* TermCanvas.tab *)
+Fixpoint tab_loop (fuel : nat) (s : st) (x : Z) : result (st * Z) :=
+  match fuel with
+  | O => Err RuntimeErrorK          (* out of fuel: never, the loop runs fewer than width times *)
+  | S k =>
+      if x <? width s - 1 then
+        do s' <- set_char s [32] (fst (cur s)) (snd (cur s));
+        do b <- is_tabstop s' (x + 1);
+        if b then Ok (s', x + 1) else tab_loop k s' (x + 1)
+      else Ok (s, x)
+  end.
+Definition tab (s : st) : result st :=
+  let '(x, y) := cur s in
+  do p <- tab_loop (S (Z.to_nat (width s))) s x;
+  Ok (set_term_cursor (with_rotten (fst p) false) (snd p) y).
+
+(* TermCharset.apply_mapping(char) *)
+Fixpoint assoc_bytes (k : list Z) (l : list (list Z * Z)) : option Z :=
+  match l with [] => None | (k', v) :: r => if list_eqb k k' then Some v else assoc_bytes k r end.
+Definition dec_lookup (ch : list Z) : option Z :=
+  match ch with [b] => dec_special_map b | _ => assoc_bytes ch dec_special_multi end.
+Definition apply_mapping (c : charset_t) (ch : list Z) : charset_t * list Z :=
+  if cs_sgr c || (cs_g c (cs_active c) =? 2) then
+    match dec_lookup ch with
+    | Some r => (set_cs_current c 1, [r])
+    | None => (set_cs_current c 2, ch)
+    end
+  else (c, ch).
+
+(* TermCanvas.push_char(char, x, y)  (char is never None on the paths of addbyte) *)
+Definition push_char (s : st) (ch : list Z) (x y : Z) : result st :=
+  let '(c, ch) := apply_mapping (cset s) ch in
+  let s := with_cset s c in
+  do s <- (if m_insert (modes s) then insert_chars s (cur s) 1 (Some ch)
+           else set_char s ch (fst (cur s)) (snd (cur s)));
+  Ok (set_term_cursor s x y).
+
+(* TermCanvas.push_cursor(char) *)
+Definition push_cursor (s : st) (ch : list Z) : result st :=
+  let '(x, y) := cur s in
+  if m_autowrap (modes s) then
+    if (width s <=? x + 1) && negb (rotten s) then push_char (with_rotten s true) ch x y
+    else
+      let x := x + 1 in
+      do r <- (if (width s <=? x) && rotten s then
+                 do s' <- (if sr_end s <=? y then scroll s false else Ok s);
+                 let y' := if sr_end s <=? y then y else y + 1 in
+                 Ok (set_term_cursor s' 0 y', 1, y')
+               else Ok (s, x, y));
+      let '(s, x, y) := r in
+      do s <- push_char s ch x y;
+      Ok (with_rotten s false)
+  else
+    let x := if x + 1 <? width s then x + 1 else x in
+    push_char (with_rotten s false) ch x y.
+
+(* ---------- escape sequences ---------- *)
+(* TermCanvas.leave_escape *)
+Definition leave_escape (s : st) : st := with_escbuf (with_pstate (with_inesc s false) 0) [].
+
+(* TermCanvas.set_g01(char, mod) *)
+Definition set_g01 (s : st) (ch md : list Z) : st :=
+  if negb (m_main_charset (modes s) =? charset_default_gen) then s else
+  let g := if list_eqb md [40] then 0 else 1 in
+  let name := if is1 ch 48 then 1 else if is1 ch 85 then 2 else if is1 ch 75 then 3 else 0 in
+  with_cset s (cs_define (cset s) g name).
+
+(* int(arg) or None on ValueError (args only hold ASCII digits; more than 4300 digits is a ValueError) *)
+Fixpoint digits_val (l : list Z) (acc : Z) : option Z :=
+  match l with
+  | [] => Some acc
+  | d :: r => if (48 <=? d) && (d <=? 57) then digits_val r (acc * 10 + (d - 48)) else None
+  end.
+Definition parse_int (l : list Z) : oz :=
+  match l with [] => None | _ => if 4300 <? zlen l then None else digits_val l 0 end.
+(* bytes.split(b";") *)
+Fixpoint split59 (l cur_ : list Z) : list (list Z) :=
+  match l with
+  | [] => [rev cur_]
+  | c :: r => if c =? 59 then rev cur_ :: split59 r [] else split59 r (c :: cur_)
+  end.
+
+(* the callbacks of CSI_COMMANDS (text checked by tools/py2v/mods/vterm_csi.py) *)
+Definition arg (args : list Z) (i : nat) : Z := nth i args 0.
+Definition csi_dispatch (s : st) (c : Z) (args : list Z) (q : bool) : result st :=
+  let a0 := arg args 0 in
+  let '(cx, cy) := cur s in
+  if c =? 64 then insert_chars s (cur s) a0 None
+  else if c =? 65 then Ok (move_cursor s 0 (- a0) false false true)
+  else if c =? 66 then Ok (move_cursor s 0 a0 false false true)
+  else if c =? 67 then Ok (move_cursor s a0 0 false false true)
+  else if c =? 68 then Ok (move_cursor s (- a0) 0 false false true)
+  else if c =? 69 then Ok (move_cursor s 0 a0 false true false)
+  else if c =? 70 then Ok (move_cursor s 0 (- a0) false true false)
+  else if c =? 71 then Ok (move_cursor s (a0 - 1) 0 false true false)
+  else if c =? 72 then Ok (move_cursor s (arg args 1 - 1) (a0 - 1) false false false)
+  else if c =? 74 then csi_erase_display s a0
+  else if c =? 75 then csi_erase_line s a0
+  else if c =? 76 then insert_lines s a0
+  else if c =? 77 then remove_lines s a0
+  else if c =? 80 then remove_chars s (cur s) a0
+  else if c =? 88 then erase s (cur s) (cx + a0 - 1, cy)
+  else if c =? 99 then Ok (csi_get_device_attributes s q)
+  else if c =? 100 then Ok (move_cursor s 0 (a0 - 1) true false false)
+  else if c =? 103 then csi_clear_tabstop s a0
+  else if c =? 104 then csi_set_modes s args q false
+  else if c =? 108 then csi_set_modes s args q true
+  else if c =? 109 then csi_set_attr s args
+  else if c =? 110 then Ok (csi_status_report s a0)
+  else if c =? 113 then Ok (csi_set_keyboard_leds s a0)
+  else if c =? 114 then Ok (csi_set_scroll s a0 (arg args 1))
+  else if c =? 115 then Ok (save_cursor s false)
+  else if c =? 117 then Ok (restore_cursor s false)
+  else Ok s.
+
+(* TermCanvas.parse_csi(char) *)
+Definition parse_csi (s : st) (c : Z) : result st :=
+  let qmark := match escbuf s with 63 :: _ => true | _ => false end in
+  let raw := split59 (if qmark then tl (escbuf s) else escbuf s) [] in
+  let nums := map parse_int raw in
+  match csi_table c with
+  | None => Err KeyErrorK
+  | Some (nargs, dflt, tgt) =>
+      let nums := nums ++ repeatz None (nargs - zlen nums) in
+      let args := map (fun a : oz => match a with None => dflt | Some v => if v =? 0 then dflt else v end) nums in
+      csi_dispatch s tgt args qmark
+  end.
+
+(* TermCanvas.parse_osc(buf) *)
+Fixpoint after59 (l : list Z) : list Z := match l with [] => [] | c :: r => if c =? 59 then r else after59 r end.
+Definition parse_osc (s : st) (buf : list Z) : st :=
+  match buf with
+  | 59 :: _ | 48 :: 59 :: _ | 50 :: 59 :: _ => with_events s (Title (after59 buf) :: events s)
+  | _ => s
+  end.
+
+(* TermCanvas.parse_noncsi(char, mod) *)
+Definition parse_noncsi (s : st) (ch md : list Z) : result st :=
+  if list_eqb md [35] && is1 ch 56 then decaln s
+  else if list_eqb md [37] then
+    if is1 ch 64 then Ok (with_modes s (set_m_main_charset (modes s) charset_default_gen))
+    else if in1 ch [71; 56] then Ok (with_modes s (set_m_main_charset (modes s) charset_utf8_gen))
+    else Ok s
+  else if list_eqb md [40] || list_eqb md [41] then Ok (set_g01 s ch md)
+  else if is1 ch 77 then linefeed s true
+  else if is1 ch 68 then linefeed s false
+  else if is1 ch 99 then Ok (reset s)
+  else if is1 ch 69 then newline s
+  else if is1 ch 72 then set_tabstop s (fst (cur s)) false false
+  else if is1 ch 90 then Ok (respond s reply_da)
+  else if is1 ch 55 then Ok (save_cursor s true)
+  else if is1 ch 56 then Ok (restore_cursor s true)
+  else Ok s.
+
+(* TermCanvas.parse_escape(char) *)
+Definition parse_escape (s : st) (ch : list Z) : result st :=
+  let ps := pstate s in
+  if ps =? 1 then
+    match ch with
+    | [c] =>
+        match csi_table c with
+        | Some _ => do s' <- parse_csi s c; Ok (leave_escape (with_pstate s' 0))
+        | None =>
+            if memz c [48; 49; 50; 51; 52; 53; 54; 55; 56; 57; 59] || (match escbuf s with [] => c =? 63 | _ => false end)
+            then Ok (with_escbuf s (escbuf s ++ ch))
+            else Ok (leave_escape s)
+        end
+    | _ => Ok (leave_escape s)
+    end
+  else if (ps =? 0) && is1 ch 93 then Ok (with_pstate (with_escbuf s []) 2)
+  else if (ps =? 2) && is1 ch 7 then Ok (leave_escape (parse_osc s (lstrip0 (escbuf s))))
+  else if (ps =? 2) && list_eqb (last_opt (escbuf s) ++ ch) [27; 92]
+       then Ok (leave_escape (parse_osc s (lstrip0 (removelast (escbuf s)))))
+  else if (ps =? 2) && (match escbuf s with 80 :: _ => true | _ => false end) && (zlen (escbuf s) =? 8)
+       then Ok (leave_escape s)
+  else if (ps =? 2) && (match escbuf s with [] => true | _ => false end) && is1 ch 82 then Ok (leave_escape s)
+  else if ps =? 2 then Ok (with_escbuf s (escbuf s ++ ch))
+  else if (ps =? 0) && is1 ch 91 then Ok (with_pstate (with_escbuf s []) 1)
+  else if (ps =? 0) && in1 ch [37; 35; 40; 41] then Ok (with_pstate (with_escbuf s ch) 3)
+  else if ps =? 3 then do s' <- parse_noncsi s ch (escbuf s); Ok (leave_escape s')
+  else if in1 ch [99; 68; 69; 72; 77; 90; 55; 56; 62; 61] then do s' <- parse_noncsi s ch []; Ok (leave_escape s')
+  else Ok (leave_escape s).
+
+(* TermCanvas.process_char(char) *)
+Definition process_char (s : st) (ch : list Z) : result st :=
+  let '(x, y) := cur s in
+  let dc := m_display_ctrl (modes s) in
+  let ndc := negb dc in
+  if is1 ch 27 && negb (pstate s =? 2) then Ok (with_inesc s true)
+  else if ndc && is1 ch 13 then Ok (carriage_return s)
+  else if ndc && is1 ch 15 then Ok (with_cset s (cs_activate (cset s) 0))
+  else if ndc && is1 ch 14 then Ok (with_cset s (cs_activate (cset s) 1))
+  else if ndc && in1 ch [10; 11; 12] then
+    do s' <- linefeed s false;
+    if m_lfnl (modes s') then Ok (carriage_return s') else Ok s'
+  else if ndc && is1 ch 9 then tab s
+  else if ndc && is1 ch 8 then (if 0 <? x then Ok (set_term_cursor s (x - 1) y) else Ok s)
+  else if ndc && is1 ch 7 && negb (pstate s =? 2) then Ok (with_events s (Beep :: events s))
+  else if ndc && in1 ch [24; 26] then Ok (leave_escape s)
+  else if ndc && in1 ch [0; 127] then Ok s
+  else if inesc s then parse_escape s ch
+  else if ndc && is1 ch 155 then Ok (with_pstate (with_escbuf (with_inesc s true) []) 1)
+  else push_cursor s ch.
+
+(* TermCanvas.get_utf8_len(bytenum): the number of 1 bits below bit 7 before the first 0 bit
+   (bytenum is not masked to 8 bits by the shifts, so 0xFF gives 7) *)
+Fixpoint utf8_len_n (n : nat) (b : Z) (i : Z) : Z :=
+  match n with O => 0 | S k => if Z.testbit b i then 1 + utf8_len_n k b (i - 1) else 0 end.
+Definition get_utf8_len (b : Z) : Z := utf8_len_n 7 b 6.
+
+(* (utf8_buffer + bytes([byte])).decode("utf-8", "ignore") is one character or "": here the buffer is a
+   start byte >= 0xC0 followed by exactly get_utf8_len(start) continuation bytes *)
+Definition utf8_one_char (buf : list Z) : bool :=
+  match buf with
+  | b0 :: b1 :: _ =>
+      ((194 <=? b0) && (b0 <=? 223))
+      || ((224 <=? b0) && (b0 <=? 239) && (negb (b0 =? 224) || (160 <=? b1)) && (negb (b0 =? 237) || (b1 <=? 159)))
+      || ((240 <=? b0) && (b0 <=? 244) && (negb (b0 =? 240) || (144 <=? b1)) && (negb (b0 =? 244) || (b1 <=? 143)))
+  | _ => false
+  end.
+
+(* TermCanvas.addbyte(byte) *)
+Definition addbyte (s : st) (b : Z) : result st :=
+  if (m_main_charset (modes s) =? charset_utf8_gen) || (enc s =? 0) then
+    if 192 <=? b then Ok (with_u8buf (with_u8eat s (Some (get_utf8_len b))) [b])
+    else
+      match u8eat s with
+      | Some n =>
+          if (128 <=? b) && (b <? 192) then
+            if 1 <? n then Ok (with_u8buf (with_u8eat s (Some (n - 1))) (u8buf s ++ [b]))
+            else
+              let s := with_u8eat s None in
+              let sq := u8buf s ++ [b] in
+              if utf8_one_char sq then process_char s (if enc s =? 2 then [63] else sq)
+              else Ok s
+          else process_char (with_u8eat s None) [b]
+      | None => process_char (with_u8eat s None) [b]
+      end
+  else process_char s [b].
+
+(* TermCanvas.addstr(data) *)
+Fixpoint addbytes (s : st) (l : list Z) : result st :=
+  match l with [] => Ok s | b :: r => do s' <- addbyte s b; addbytes s' r end.
+Definition addstr (s : st) (data : list Z) : result st :=
+  if (width s <=? 0) || (height s <=? 0) then Ok s else addbytes s data.
+
+(* ---------- resize, view ---------- *)
+(* the "grow" loop of resize: for _y in range(self.height, height) *)
+Fixpoint resize_grow (n : nat) (s : st) : st :=
+  match n with
+  | O => s
+  | S k =>
+      match rev (sb s) with
+      | [] => resize_grow k (with_sr_end (with_term s (term s ++ [empty_line s [32]])) (sr_end s + 1))
+      | last_line :: rest =>
+          let s := with_sb s (rev rest) in
+          let padding := width s - zlen last_line in
+          let line := if 0 <? padding then last_line ++ repeatz (empty_char s [32]) padding
+                      else takez (width s) last_line in
+          resize_grow k (with_term s (insert (term s) 0 line))
+      end
+  end.
+(* the "shrink" loop: for _y in range(height, self.height): scrollback.append(term.pop(0)) *)
+Fixpoint resize_shrink (n : nat) (s : st) : result st :=
+  match n with
+  | O => Ok s
+  | S k => do p <- pop (term s) 0; resize_shrink k (with_term (sb_append s (fst p)) (snd p))
+  end.
+
+(* TermCanvas.resize(width, height) *)
+Definition resize (s : st) (w h : Z) : result st :=
+  let '(x, y) := cur s in
+  (* both width loops rebind y: "for y in range(self.height)" *)
+  let y := if (negb (w =? width s)) && (0 <? height s) then height s - 1 else y in
+  do t <- (if width s <? w then
+             if zlen (term s) <? height s then Err IndexError else
+             Ok (map (fun r => r ++ repeatz (empty_char s [32]) (w - width s)) (takez (height s) (term s))
+                 ++ dropz (height s) (term s))
+           else if w <? width s then
+             if zlen (term s) <? height s then Err IndexError else
+             Ok (map (fun r => takez (Z.max 0 w) r) (takez (height s) (term s)) ++ dropz (height s) (term s))
+           else Ok (term s));
+  let s := with_width (with_term s t) w in
+  do s <- (if height s <? h then Ok (resize_grow (Z.to_nat (h - height s)) s)
+           else if h <? height s then resize_shrink (Z.to_nat (height s - h)) s
+           else Ok s);
+  let s := with_height s h in
+  let s := reset_scroll s in
+  let '(x, y) := constrain s x y 0 in
+  let s := set_term_cursor s x y in
+  Ok (init_tabstops s true).
+
+(* TermCanvas.content() *)
+Definition content (s : st) : list row :=
+  if sup s =? 0 then term s else
+  let buf := sb s ++ term s in
+  let '(a, b, _) := slice_indices (zlen buf) (Some (- (height s + sup s))) (Some (- sup s)) None in
+  takez (b - a) (dropz a buf).
+
+(* Terminal.change_focus's effect on the canvas *)
+Definition set_focus (s : st) (f : bool) : st := set_term_cursor_here (with_has_focus s f).
+
+(* ---------- operations of a session and the wire format ---------- *)
+Inductive op :=
+  | Feed (data : list Z)                       (* Terminal.feed -> TermCanvas.addstr *)
+  | Resize (w h : Z)                           (* Terminal.touch_term -> TermCanvas.resize *)
+  | ScrollBuf (up : bool) (lines : oz)         (* 'page up' / 'page down' -> scroll_buffer *)
+  | ScrollReset                                (* any other key -> scroll_buffer(reset=True) *)
+  | Focus (f : bool).                          (* Terminal.change_focus *)
+
+Definition step (s : st) (o : op) : result st :=
+  match o with
+  | Feed d => addstr s d
+  | Resize w h => resize s w h
+  | ScrollBuf up lines => Ok (scroll_buffer s up false lines)
+  | ScrollReset => Ok (scroll_buffer s true true None)
+  | Focus f => Ok (set_focus s f)
+  end.
+
+Fixpoint run (s : st) (ops : list op) : result st :=
+  match ops with [] => Ok s | o :: r => do s' <- step s o; run s' r end.
+
+(* case  = enc w h nops op*     op = 1 n byte* | 2 w h | 3 up haslines lines | 4 | 5 f
+   reply = per op: 0 summary(13 ints) ... ; on an exception: errcode index and nothing more;
+           then -1 and the final snapshot *)
+Definition dec_op (l : list Z) : option (op * list Z) :=
+  match l with
+  | 1 :: r => match dec_list r with Some (d, r') => Some (Feed d, r') | None => None end
+  | 2 :: w :: h :: r => Some (Resize w h, r)
+  | 3 :: up :: hl :: n :: r => Some (ScrollBuf (negb (up =? 0)) (if hl =? 0 then None else Some n), r)
+  | 4 :: r => Some (ScrollReset, r)
+  | 5 :: f :: r => Some (Focus (negb (f =? 0)), r)
+  | _ => None
+  end.
+Fixpoint dec_ops (fuel : nat) (l : list Z) : list op :=
+  match fuel with
+  | O => []
+  | S k => match dec_op l with Some (o, r) => o :: dec_ops k r | None => [] end
+  end.
+
+Definition enc_pair (o : option (Z * Z)) : list Z := match o with None => [0; 0; 0] | Some (a, b) => [1; a; b] end.
+Definition enc_attr (a : option attr) : list Z :=
+  match a with
+  | None => [0]
+  | Some a => [1] ++ enc_oz (a_fg a) ++ enc_oz (a_bg a)
+              ++ [a_colors a; enc_bool (a_bold a); enc_bool (a_ul a); enc_bool (a_blink a); enc_bool (a_so a)]
+  end.
+Definition enc_cell (c : cell) : list Z := let '(a, cs, ch) := c in enc_attr a ++ [cs] ++ enc_list ch.
+Definition enc_row (r : row) : list Z := zlen r :: flat_map enc_cell r.
+Definition enc_rows (l : list row) : list Z := zlen l :: flat_map enc_row l.
+Definition enc_event (e : event) : list Z :=
+  match e with
+  | Respond r => 1 :: enc_list r
+  | Title t => 2 :: enc_list t
+  | Beep => [3]
+  | Leds n => [4; n]
+  end.
+Definition enc_modes (m : modes_t) : list Z :=
+  [enc_bool (m_display_ctrl m); enc_bool (m_insert m); enc_bool (m_lfnl m); enc_bool (m_keys_decckm m);
+   enc_bool (m_reverse_video m); enc_bool (m_constrain m); enc_bool (m_autowrap m); enc_bool (m_visible m);
+   enc_bool (m_bracketed m); m_main_charset m].
+Definition enc_charset (c : charset_t) : list Z := [cs_g0 c; cs_g1 c; enc_bool (cs_sgr c); cs_active c; cs_current c].
+
+Definition minmax_len (l : list row) : Z * Z :=
+  match l with
+  | [] => (0, 0)
+  | r :: rest => fold_left (fun acc r => (Z.min (fst acc) (zlen r), Z.max (snd acc) (zlen r))) rest (zlen r, zlen r)
+  end.
+Definition summary (s : st) : list Z :=
+  let c := content s in
+  let '(mn, mx) := minmax_len c in
+  [zlen c; mn; mx] ++ enc_pair (cursor s) ++ [fst (cur s); snd (cur s); sr_start s; sr_end s; width s; height s;
+   zlen (term s)].
+Definition snapshot (s : st) : list Z :=
+  [width s; height s] ++ enc_rows (term s) ++ [fst (cur s); snd (cur s)] ++ enc_pair (cursor s)
+  ++ [enc_bool (has_focus s)] ++ enc_rows (sb s) ++ [sup s] ++ enc_oz (u8eat s) ++ enc_list (u8buf s)
+  ++ enc_list (escbuf s) ++ [enc_bool (inesc s); pstate s] ++ enc_attr (attrspec s) ++ enc_charset (cset s)
+  ++ enc_pair (saved_cur s)
+  ++ (match saved_attrs s with
+      | None => [0]
+      | Some (a, (sg, ac, cu)) => [1] ++ enc_attr a ++ [enc_bool sg; ac; cu]
+      end)
+  ++ [enc_bool (rotten s); sr_start s; sr_end s] ++ enc_list (tabstops s) ++ enc_modes (modes s)
+  ++ (zlen (events s) :: flat_map enc_event (rev (events s)))
+  ++ enc_rows (content s).
+
+Fixpoint run_trace (s : st) (ops : list op) (i : Z) : list Z :=
+  match ops with
+  | [] => -1 :: snapshot s
+  | o :: r =>
+      match step s o with
+      | Ok s' => 0 :: summary s' ++ run_trace s' r (i + 1)
+      | Err e => [errcode e; i]
+      end
+  end.
+
+Definition run_vterm (l : list Z) : list Z :=
+  match l with
+  | e :: w :: h :: r => run_trace (init w h e) (dec_ops (length r) r) 0
+  | _ => [-2]
+  end.
